@@ -260,10 +260,22 @@ func (r *Runner) RunKdc(s *KdcScript, tw *TraceWriter, rng *rand.Rand) error {
 	if kd == nil {
 		kd = []M{}
 	}
+	// (by content, not by count: what the other realm's KDC still receives of the EARLIER request - its datagram copy
+	// may be recorded late - is that request's business)
 	sentForeign := false
-	if otherKDC != nil {
+	_ = foreign0
+	if otherKDC != nil && s.Realm != "unknown" {
 		tcp1, udp1 := otherKDC.Snapshot()
-		sentForeign = len(tcp1)+len(udp1) > foreign0
+		for _, g := range tcp1 {
+			if len(g) >= len(kerb) && len(kerb) > 4 && bytes.HasPrefix(g, kerb) || len(g) > 4 && bytes.HasPrefix(kerb, g) {
+				sentForeign = true
+			}
+		}
+		for _, g := range udp1 {
+			if len(msg) > 0 && bytes.Equal(g, msg) {
+				sentForeign = true
+			}
+		}
 	}
 	after := s.After
 	if after == "" {
